@@ -102,7 +102,7 @@ impl Prop for C15 {
     type Case = DictCase;
     fn id(&self) -> &'static str { "C15" }
     fn expected_counters(&self) -> Vec<&'static str> { vec!["probe.full_recheck_of_issued_ids", "probe.both_operands_hold_quoted_terms", "probe.operands_share_quads", "probe.identifiers_clash_between_operands", "fault.identifier_space_exhausted"] }
-    fn budget(&self, tier: Tier) -> Budget { match tier { Tier::Quick => Budget { runs: 6000, wall_s: 60, recheck: 30 }, Tier::Thorough => Budget { runs: 300_000, wall_s: 1500, recheck: 100 } } }
+    fn budget(&self, tier: Tier) -> Budget { match tier { Tier::Quick => Budget { runs: 6000, wall_s: 60, recheck: 30 }, Tier::Thorough => Budget { runs: 300_000, wall_s: 1000, recheck: 100 } } }
     fn hash_seed(&self, c: &DictCase) -> u64 { c.hash_seed }
     fn gen(&self, seed: u64, _i: u64, _t: Tier) -> DictCase { let mut r = Rng::sub(seed, "workload"); DictCase { hash_seed: Rng::sub(seed, "hash").next(), pad_b: r.below(7) as u32, a: gen_ops(&mut r), b: gen_ops(&mut r), exhaust: if r.chance(1, 8) { Some(r.below(4) as u32) } else { None } } }
     fn exec(&self, c: &DictCase, ctx: &mut Ctx) -> Option<Violation> {
